@@ -237,3 +237,26 @@ func H_C04_negzero() {
 	verif.Assert(len(got) == 1, "negzero-joins")
 	verif.Reach("end")
 }
+
+// H_C04_keytext: two-column equi-joins on small integer keys whose decimal
+// texts can be confused when concatenated ((1,23) vs (12,3)).
+func H_C04_keytext() {
+	jt := verif.Choose("type", 3)
+	strat := verif.Choose("strategy", 2)
+	vals := []float64{1, 2, 3, 12, 23}
+	pick := func(label string) float64 { return vals[verif.Choose(label, len(vals))] }
+	l := Map{"a": pick("la"), "z": pick("lz")}
+	r := Map{"m": pick("rm"), "b": pick("rb")}
+	lrows, rrows := []Map{l}, []Map{r}
+	got, ok := runQuery(Map{"l": []any{l}, "r": []any{r}}, "SELECT * FROM l x "+joinKeyword(jt, strat, false)+" r y ON "+joinConds[2])
+	if !ok {
+		return
+	}
+	pairs, shaped := joinPairs(got, lrows, rrows)
+	verif.Assert(shaped, "row-shape")
+	if !shaped {
+		return
+	}
+	verif.Assert(sameMultiset(pairs, refJoin(jt, 2, lrows, rrows, false)), "multiset")
+	verif.Reach("end")
+}
